@@ -392,6 +392,9 @@ impl DB {
         let get_result = parking_lot::MutexGuard::unlocked_fair(
             &mut db_fields_guard,
             || -> RainDBResult<Option<Vec<u8>>> {
+                #[cfg(feature = "verif")]
+                crate::verif::sched::point(self.options.db_path(), "get:unlocked");
+
                 let internal_key = InternalKey::new_for_seeking(key.to_vec(), snapshot);
 
                 // Check the memtable first
@@ -422,6 +425,9 @@ impl DB {
                 }
 
                 // Check table files on disk
+                #[cfg(feature = "verif")]
+                crate::verif::sched::point(self.options.db_path(), "get:before-tables");
+
                 match current_version
                     .read()
                     .element
@@ -1231,14 +1237,23 @@ impl DB {
                     WAL and to the memtable.
                     */
 
+                    #[cfg(feature = "verif")]
+                    crate::verif::sched::point(self.options.db_path(), "write:before-wal");
+
                     // Write the changes to the write-ahead log first
                     unsafe {
                         // SAFETY: RainDB only allows one writer thread at a time.
                         (*self.wal().get()).append(&Vec::<u8>::from(&write_batch))?;
                     }
 
+                    #[cfg(feature = "verif")]
+                    crate::verif::sched::point(self.options.db_path(), "write:after-wal");
+
                     // Write the changes to the memtable
                     DB::apply_batch_to_memtable(&**self.memtable(), &write_batch);
+
+                    #[cfg(feature = "verif")]
+                    crate::verif::sched::point(self.options.db_path(), "write:after-apply");
 
                     Ok(())
                 },
@@ -1536,6 +1551,9 @@ impl DB {
             let value = batch_element.get_value().map_or(vec![], |val| val.to_vec());
             memtable.insert(internal_key, value);
 
+            #[cfg(feature = "verif")]
+            crate::verif::sched::point("", "write:mid-apply");
+
             curr_sequence_num += 1;
         }
     }
@@ -1767,6 +1785,9 @@ impl DB {
         parking_lot::MutexGuard::<'_, GuardedDbFields>::unlocked_fair(
             db_fields_guard,
             || -> RainDBResult<()> {
+                #[cfg(feature = "verif")]
+                crate::verif::sched::point(db_state.options.db_path(), "bg:building-table");
+
                 DB::build_table_from_iterator(
                     &db_state.options,
                     &mut file_metadata,
@@ -2088,6 +2109,9 @@ impl DB {
         names that will not collide with newly created files so it is safe to release the lock.
         */
         parking_lot::MutexGuard::<'_, GuardedDbFields>::unlocked_fair(db_fields_guard, move || {
+            #[cfg(feature = "verif")]
+            crate::verif::sched::point("", "bg:before-delete");
+
             for file in files_to_delete {
                 log::info!("Removing obsolete file: {:?}", &file);
                 if let Err(error) = filesystem_provider.remove_file(&file) {
